@@ -47,7 +47,7 @@ class P:
             "call and by bare name, global function, prefix / infix / postfix operator); for each program with m handler invocations and "
             "each k < m, the k-th invocation returns Err or panics; the faulted evaluation is followed by a battery on the same context "
             "(dump, a new evaluation reading and assigning), on another context, on another thread, every registry, and the most deeply nested "
-            "programs the parser accepts on the faulted thread; plus 300 contained faults on one long-lived thread followed by a plain evaluation. Oracle: Err -> ERR, panic -> an "
+            "programs the parser accepts on the faulted thread; plus 300 contained faults on one long-lived thread (each must reach its handler and return as the first did) followed by a plain evaluation. Oracle: Err -> ERR, panic -> an "
             "unwind caught by the caller, exactly k+1 log entries, no lock poisoned, the context equals the reference semantics cut at "
             "that point, follow-ups return their normal results. Non-trivial = distinct (program, k, fault kind).")
     assumptions = ["a panic is observed with catch_unwind on the calling thread"]
@@ -162,6 +162,13 @@ class P:
         outs = impl.split(" ")
         if case.gen == "many":
             # a long-lived thread: after 300 contained faults it still evaluates
+            # ... and each of the 300 is itself a later evaluation of the ones before it: it reaches the handler and the fault
+            # reaches the caller, as the first one did
+            wantcls = {"fail": "ERR", "panic": "PANIC"}[tag[0]]
+            first = outs[nset]
+            for i, o in enumerate(outs[nset:-1]):
+                if o.split(":")[0] != wantcls or o != first:
+                    return "violates", "contained %s number %d on one thread returned %s, the first one returned %s" % (tag[0], i + 1, o[:50], first[:50])
             last = values.split_exec(outs[-1])
             if last["cls"] != "OK" or last["value"] != "n(0,2,0)":
                 return "violates", "after %d contained %ss on one thread, `1 + 1` on that thread returned %s" % (tag[1], tag[0], outs[-1][:50])
